@@ -36,6 +36,9 @@ func sortedKeys[T any](paths map[string]T) []string {
 	return ret
 }
 
+// label values can contain client-supplied strings and must be escaped.
+var labelValueEscaper = strings.NewReplacer(`\`, `\\`, "\n", `\n`, `"`, `\"`)
+
 func tags(m map[string]string) string {
 	var b strings.Builder
 	b.WriteByte('{')
@@ -47,7 +50,7 @@ func tags(m map[string]string) string {
 		first = false
 		b.WriteString(k)
 		b.WriteString("=\"")
-		b.WriteString(m[k])
+		b.WriteString(labelValueEscaper.Replace(m[k]))
 		b.WriteByte('"')
 	}
 	b.WriteByte('}')
